@@ -144,7 +144,11 @@ func buildReplayBinary(cfg *RunConfig, pkg string, workdir string) (string, erro
 		defer func() {
 			switch x := recover().(type) {
 			case nil:
-				done <- "ok"
+				if symAllocExceeded() {
+					done <- "alloc more bytes allocated than the harness limit"
+				} else {
+					done <- "ok"
+				}
 			case symAssertFail:
 				done <- "assert-fail " + x.Label
 			case symAssumeFail:
